@@ -79,6 +79,7 @@ def run(prop, tier, seed, replay=None):
                 "clear_log; non-trivial = a problem whose Optimize object could be built; distinct PRNG states",
         "samples": samples, "traces_validated_against_impl": nlines, "correspondence_divergences": len(diffs),
         "oracle_failures": len(failures), "input_distribution": dict(sorted(stats_total.items())), "builds": ["pure"],
+        "theorem_scope": dict(suite_opt_trace.STATS) if diffs is not None and "suite_opt_trace" in dir() else {},
         "lean_problems": lean_problems})
     v.assumptions = ["IEEE doubles without NaN; 'up to rounding' bounds use 1e-12 relative tolerance only for non-unit weights",
                      "solve() is claimed with assert_within_tol=True and check_limits=True (defaults)"]
